@@ -7,6 +7,7 @@ package flags
 import (
 	"fmt"
 	"reflect"
+	"sort"
 	"strconv"
 	"strings"
 	"time"
@@ -132,18 +133,31 @@ func convertToString(val reflect.Value, options multiTag) (string, error) {
 	case reflect.Map:
 		ret := "{"
 
-		for i, key := range val.MapKeys() {
-			if i != 0 {
-				ret += ", "
-			}
+		// Render the entries sorted by key, so that the result does not
+		// depend on the iteration order of the map
+		keys := val.MapKeys()
+		keyitems := make([]string, len(keys))
+		bykeyitem := make(map[string]reflect.Value, len(keys))
 
+		for i, key := range keys {
 			keyitem, err := convertToString(key, options)
 
 			if err != nil {
 				return "", err
 			}
 
-			item, err := convertToString(val.MapIndex(key), options)
+			keyitems[i] = keyitem
+			bykeyitem[keyitem] = key
+		}
+
+		sort.Strings(keyitems)
+
+		for i, keyitem := range keyitems {
+			if i != 0 {
+				ret += ", "
+			}
+
+			item, err := convertToString(val.MapIndex(bykeyitem[keyitem]), options)
 
 			if err != nil {
 				return "", err
